@@ -53,8 +53,9 @@ def run_case(case):
     gbits = (dw // gran).bit_length() - 1
     map_aw = max(1, aw + gbits)
     dfeat = set(case["features"])
-    dec = wishbone.Decoder(addr_width=aw, data_width=dw, granularity=gran, features=spell_features(rng, dfeat),
-                           alignment=case["al"])
+    from vmon.simkit import omit
+    dec = wishbone.Decoder(**omit(rng, "wishbone", addr_width=aw, data_width=dw, granularity=gran,
+                                  features=spell_features(rng, dfeat), alignment=case["al"]))
     subs = []
     for i in range(case["nsubs"]):
         sparse = rng.random() < 0.3 and gbits > 0
